@@ -53,6 +53,31 @@ theorem C18_counter (c : Cpu) (e : Option UInt32) :
   · have h' : ¬ c.slice.max < c.slice.cur := h
     simp [h, h']
 
+/-- the budget for a clock of f = n8/8 MHz and a slice of d ms: f x 1000 x d T-states
+    (8 * budget = n8 * 1000 * d, no rounding).  That the f32 code computes this value is checked on
+    the implementation for the grid f in eighths of a MHz x d | 1000. -/
+theorem C18_budget (c : Cpu) (n8 : UInt32) (h : n8.toNat * 125 * c.slice.duration.toNat < 2 ^ 32) :
+    8 * (c.setFreqEighths n8).slice.max.toNat = n8.toNat * 1000 * c.slice.duration.toNat ∧
+    (c.setFreqEighths n8).slice.duration = c.slice.duration := by
+  refine ⟨?_, rfl⟩
+  show 8 * (n8 * 125 * c.slice.duration).toNat = _
+  generalize hx : n8.toNat = x at h
+  generalize hd : c.slice.duration.toNat = d at h
+  have ha : ∀ a b e : Nat, 8 * (a * 125 * e) = a * 1000 * e := by
+    intro a b e
+    rw [← Nat.mul_assoc, Nat.mul_comm 8 (a * 125), Nat.mul_assoc a 125 8]
+  by_cases hz : d = 0
+  · subst hz
+    have : c.slice.duration = 0 := UInt32.toNat_inj.mp (by simpa using hd)
+    rw [this]; simp
+  · have h1 : x * 125 < 2 ^ 32 := by
+      have : x * 125 ≤ x * 125 * d := Nat.le_mul_of_pos_right _ (Nat.pos_of_ne_zero hz)
+      omega
+    rw [UInt32.toNat_mul, UInt32.toNat_mul, hx, hd]
+    simp only [show (125 : UInt32).toNat = 125 from rfl]
+    rw [Nat.mod_eq_of_lt h1, Nat.mod_eq_of_lt h]
+    exact ha x 0 d
+
 /-! ### histories of timed steps -/
 
 /-- the accounting the property describes: T-states accumulated since the previous request -/
